@@ -145,6 +145,11 @@ def features():
         # struct-typed fields whose class has no named field at all
         {'name': 'Magic', 'body': [F(None, 'string', 'EO', length='2'), F(None, 'char', '9')]},
         {'name': 'HoldsFieldless', 'body': [F('id', 'char'), F('m', 'Magic'), F('d', 'OnlyDummy'), A('ms', 'Magic', length='2')]},
+        # fixed-size element structs holding padded / fixed strings, in a length-less array (element count = remaining // size)
+        {'name': 'PadRec', 'body': [F('tag', 'string', length='3', padded='true'), F('n', 'char')]},
+        {'name': 'PadRecs', 'body': [F('h', 'char'), A('rs', 'PadRec')]},
+        # 0xFF-capable plain fields ahead of a chunked section that reads raw bytes, chars and strings
+        {'name': 'BytePrefix', 'body': [F('a', 'byte'), F('b', 'char'), CH(F('x', 'byte'), F('y', 'char'), F('z', 'byte'), F('s', 'string'), BR, F('t', 'byte'))]},
         # two sibling chunked sections in one class
         {'name': 'TwoSections', 'body': [F('id', 'char'), CH(F('a', 'string'), BR, F('n', 'char')), F('mid', 'short'), CH(F('b', 'string'))]},
         {'name': 'ArrOfArr', 'body': [L('rows_count', 'char'), A('rows', 'Rest', length='rows_count')] if False else [L('rows_count', 'char'), A('rows', 'Named', length='rows_count')]},
